@@ -56,7 +56,9 @@ SIG_D = "F-C07d-qos0-dropped-unmarked-by-reconnect"
 SIG_E = "F-C07e-lost-qos0-reported-success"
 SIG_F = "F-C07f-inflight-negative-publish-during-reconnect"
 SIG_G = "F-C07g-popped-packet-written-on-new-socket"
-SIG_H = "F-C07h-appreconnect-new-socket-cleared-by-loop-thread"
+SIG_H = "F-C07h-appreconnect-loop-thread-active-inside-application-reconnect"
+# what a run can show when the finding F-C07h applies (see overlapped())
+H_KINDS = ("stall", "deadlock", "livelock", "lost-wakeup")
 # a-e were fixed in /repo (c6905fd, 0ed8c5c, 189c9f8, 060dbc4): their stored schedules are regression replays that must pass
 EXPECTED_OPEN = (SIG_F, SIG_G, SIG_H)
 LOCK_IDS = {"_mid_generate_mutex": 0, "_out_message_mutex": 1, "_in_callback_mutex": 2, "_callback_mutex": 3,
@@ -374,7 +376,9 @@ def make_control(cfg, sch, c, broker, run):
             wait(lambda: run.connected >= 1 and loop_parked(s), "connected and loop parked")
             s.explore = True
             start_pubs()
+            s.event("appreconnect-begin")
             api("reconnect", c.reconnect)
+            s.event("appreconnect-end")
             for t in pubs:
                 t.join()
             wait(lambda: run.connected >= 2, "reconnected")
@@ -428,15 +432,52 @@ def classify_error(e):
         return SIG_B
     if typ == "AttributeError" and "loop_stop" in where and "join" in (msg + where):
         return SIG_C
-    if typ == "AttributeError" and "NoneType" in msg and "reconnect" in where and "self._sock.setblocking" in where and e.get("thread") != "L":
-        # an APPLICATION thread is between `self._sock = self._create_socket()` and the next line of reconnect() while the
-        # loop thread, still handling the end of the old connection, runs _sock_close(): it closes and clears the NEW socket
-        return SIG_H
     fn = where.split(":")[1] if where.count(":") >= 2 else where
     return "internal-error:%s@%s" % (typ, fn)
 
 
+def overlapped(run):
+    """F-C07h, identified by its history: the loop thread did connection work (socket I/O, closing or creating a socket, taking
+    packets off the queue) WHILE an application thread was inside reconnect() - between the events appreconnect-begin and
+    appreconnect-end of scenario appreconnect.  The two threads then share self._sock with nobody owning it: the loop thread
+    closes / clears / replaces the socket the application thread is setting up, or goes on waiting on the one it replaced."""
+    if run.cfg.get("scenario") != "appreconnect":
+        return False
+    inside = False
+    for thr, kind, d in run.sched.events:
+        if kind == "appreconnect-begin":
+            inside = True
+        elif kind == "appreconnect-end":
+            inside = False
+        elif inside and thr == "L" and kind in ("send", "recv", "popleft", "new-sock", "sock-rd", "select-ret", "clear", "appendleft"):
+            return True
+    return False
+
+
 def judge(run):
+    return attribute_h(run, judge0(run))
+
+
+def attribute_h(run, v):
+    """violations of a run in which F-C07h's history occurred and which are of the kinds that history explains (an internal
+    AttributeError on self._sock inside reconnect()/the loop, a stall / lost wake-up on a replaced socket, a third connection
+    opened by the loop thread's own reconnect) are reported under the finding's signature; everything else stays as it is"""
+    if not v or not overlapped(run):
+        return v
+    out, folded = [], []
+    for x in v:
+        sig = x["signature"]
+        if sig in H_KINDS or (sig.startswith("internal-error:AttributeError@") and "NoneType" in x["what"] and "_sock" in x["what"]):
+            folded.append(x)
+        else:
+            out.append(x)
+    if folded:
+        out.append({"signature": SIG_H, "what": "the loop thread worked on the connection while an application thread was inside reconnect(): "
+                    + "; ".join(f["signature"] + " - " + f["what"][:200] for f in folded[:3])})
+    return out
+
+
+def judge0(run):
     """the property on the implementation: list of {'signature', 'what'}"""
     v = []
     sch, c, b, cfg = run.sched, run.client, run.broker, run.cfg
